@@ -699,6 +699,18 @@ def apply_reference(F):
         if len(fam_c) == len(fam_r) and all(raw_sig(a) == raw_sig(b) and a.id == b.id for a, b in zip(fam_c, fam_r)):
             continue
         changed.append((f, g, fam_c, fam_r))
+    # who calls the functions the reference does not have (helpers introduced by a refactoring), as the tree is written:
+    # rules that reason about "only called from X" must not lose this when X is analysed through its reference body
+    from .graph import fn_uses
+    newf = {f.id for f in roots if f.id not in R.fns}
+    pre = {}
+    if newf:
+        for g in F.fns.values():
+            for kind2, path2, full2, rdef2, rlocal2, bi2, span2, t2 in fn_uses(g):
+                for tgt in (rdef2, path2):
+                    if tgt in newf:
+                        pre.setdefault(tgt, set()).add(g.root or g.id)
+    F.pre_subst_callers = pre
     # Functions that really differ from their reference version are not seen through when their callers are
     # compared (on either side): a caller that only *calls* a changed function is still the same caller, and the
     # changed function is judged on its own.  Iterate until no further function becomes equivalent.
